@@ -62,7 +62,7 @@ pub fn through_carriers(ctx: &mut Ctx, h: &Item, nstyles: usize, strict: bool, n
 fn base_header(i: u64) -> Item {
     let mut r = Rng::new(crate::rng::mix(FIXED_BASE_SEED, i));
     // the first bases are the deterministic "each typed field alone" and "all fields" headers
-    let o = GenOpts { styled_prot: 0, built: false, max_depth: 1 };
+    let o = GenOpts { styled_prot: 0, built: false, max_depth: 1, mixed: false };
     let h = gen::gen_header(&mut r, &o, 0);
     model::enc_header(&h)
 }
@@ -82,10 +82,15 @@ impl Check for C08 {
             Phase { name: "all 128 subsets of the typed fields", cases: 128, exhaustive: true },
             Phase { name: "every ordered pair of the seven typed entries (both orders, incl. IV with Partial IV) and every typed entry twice", cases: 49, exhaustive: true },
             Phase { name: "text content types: each of the 25 Unicode White_Space characters and 12 look-alikes that are not white space, leading / trailing / inner; '/' counts 0-3", cases: 37 + 8, exhaustive: true },
+            Phase { name: "birthday: header maps with 2^18 pairwise distinct text / integer labels (bare, and as the protected header of a COSE_Sign1)", cases: 3, exhaustive: true },
         ]
     }
     fn run_case(&self, ctx: &mut Ctx, phase: usize, idx: u64) {
         match phase {
+            8 => {
+                let w = [0u64, 1, 6][idx as usize];
+                super::common::birthday_case(ctx, w);
+            }
             0 => {
                 let o = GenOpts::wire();
                 let h = gen::gen_header(&mut ctx.rng, &o, 0);
@@ -146,7 +151,7 @@ impl Check for C08 {
             4 => {
                 // every order of the entries of a header with <= 5 entries: same outcome, extras in
                 // wire order
-                let o = GenOpts { styled_prot: 0, built: false, max_depth: 1 };
+                let o = GenOpts { styled_prot: 0, built: false, max_depth: 1, mixed: false };
                 let h = gen::gen_header(&mut ctx.rng, &o, 0);
                 let it = model::enc_header(&h);
                 if let Item::Map(m) = &it {
@@ -237,7 +242,7 @@ impl Check for C08 {
         }
     }
     fn rule(&self) -> String {
-        "header maps generated as: valid model headers (every field optional, counter-signatures nested <= 2, extras over the label alphabet) in canonical and 3 random encodings (head widths, indefinite lengths, bignum integers, float widths, shuffled typed entries); the complete single-fault neighbourhood (every node x 24 replacement kinds, every entry removed/duplicated at every position, boundary tweaks) of fixed base headers; 1-3 random faults; uniformly random maps; all entry orders of small headers; all 128 typed-field subsets. Each through Header::from_slice, from_cbor_value, and the unprotected and protected slot of a COSE_Sign1. Oracle: accept iff the reference model accepts, fields equal. Non-trivial = distinct encodings with >= 2 entries or a planted fault.".into()
+        "header maps generated as: valid model headers (every field optional, counter-signatures nested <= 2, extras over the label alphabet) in canonical and 3 random encodings (head widths, indefinite lengths, bignum integers, float widths, shuffled typed entries); the complete single-fault neighbourhood (every node x 24 replacement kinds, every entry removed/duplicated at every position, boundary tweaks) of fixed base headers; 1-3 random faults; uniformly random maps; all entry orders of small headers; all 128 typed-field subsets. Each through Header::from_slice, from_cbor_value, and the unprotected and protected slot of a COSE_Sign1. Oracle: accept iff the reference model accepts, fields equal. Birthday workload: 2^18 pairwise distinct labels (8-character texts / 64-bit integers / private-use integers) in one map must all be accepted and come back in order (a duplicate detector keyed on anything shorter than the label would report a duplicate that is not there). Non-trivial = distinct encodings with >= 2 entries or a planted fault.".into()
     }
     fn assumptions(&self) -> Vec<String> {
         super::std_assumptions()
